@@ -188,7 +188,13 @@ func (it *Interp) switchTo(c *Coroutine, msg coMsg) ([]Value, *LuaError) {
 func (it *Interp) yield(vals []Value) []Value {
 	c := it.cur
 	c.fromCo <- coMsg{vals: vals}
-	m := <-c.toCo
+	var m coMsg
+	select {
+	case m = <-c.toCo:
+	case <-it.done:
+		// the run is over: unwind without running any handler
+		panic(coAbort{})
+	}
 	if m.abort {
 		panic(coAbort{})
 	}
@@ -199,7 +205,12 @@ func (it *Interp) yield(vals []Value) []Value {
 }
 
 func (it *Interp) coMain(c *Coroutine) {
-	m := <-c.toCo
+	var m coMsg
+	select {
+	case m = <-c.toCo:
+	case <-it.done:
+		return
+	}
 	if m.abort {
 		return
 	}
@@ -225,10 +236,15 @@ func (it *Interp) coMain(c *Coroutine) {
 		out = coMsg{vals: vals, done: true}
 	}()
 	if out.abort {
-		c.aborted <- struct{}{}
+		if c.aborted != nil {
+			c.aborted <- struct{}{}
+		}
 		return
 	}
-	c.fromCo <- out
+	select {
+	case c.fromCo <- out:
+	case <-it.done:
+	}
 }
 
 // abortAll unwinds every coroutine that is still suspended at the end of the
@@ -239,7 +255,11 @@ func (it *Interp) abortAll() {
 			c.aborted = make(chan struct{}, 1)
 			select {
 			case c.toCo <- coMsg{abort: true}:
-				<-c.aborted
+				// the acknowledgement, or a last message if the unwinding ended otherwise
+				select {
+				case <-c.aborted:
+				case <-c.fromCo:
+				}
 			default:
 				// not waiting in yield (it is "normal": suspended inside a resume of
 				// a coroutine that was itself aborted) — it will be collected with its channels
@@ -247,4 +267,6 @@ func (it *Interp) abortAll() {
 			c.status = "dead"
 		}
 	}
+	// whatever is still parked (it should be nothing) is released
+	close(it.done)
 }
